@@ -3084,7 +3084,8 @@ def is_broadcastable(dfs, s):
     def compare(s, df):
         try:
             return s.divisions == (min(df.columns), max(df.columns))
-        except TypeError:
+        except (TypeError, ValueError):
+            # labels that can't be compared, or a frame without columns
             return False
 
     return (
